@@ -37,6 +37,8 @@ let () = List.iter (fun (k, s) -> Hashtbl.replace tokstr_tbl (int_of_n (kind_num
 let msgname = function
   | EInvalidHexEscape -> "invalid hexadecimal escape sequence"
   | EInvalidEscape -> "invalid escape sequence"
+  | ENullInChar -> "null byte in character constant"
+  | ENullInString -> "null byte in string literal"
   | ENewlineInChar -> "newline in character constant"
   | EEOFInChar -> "EOF in character constant"
   | ENewlineInString -> "newline in string literal"
